@@ -17,7 +17,6 @@ import (
 	"github.com/ipfs/go-cid"
 	"github.com/ipni/go-libipni/announce/httpsender"
 	"github.com/ipni/go-libipni/announce/message"
-	"github.com/libp2p/go-libp2p/core/peer"
 	"github.com/multiformats/go-multiaddr"
 	"github.com/multiformats/go-multihash"
 	"github.com/multiformats/go-varint"
@@ -45,9 +44,10 @@ type tcase struct {
 }
 
 var (
-	okAddrs  = []multiaddr.Multiaddr{multiaddr.StringCast("/ip4/8.8.8.8/tcp/3103"), multiaddr.StringCast("/dns4/announce.example.com/tcp/443/https")}
-	unkAddr  = append(varint.ToUvarint(7777777), 1, 2, 3) // an unregistered protocol code
-	origPeer = ids.Peer("c10-orig").String()
+	okAddrs   = []multiaddr.Multiaddr{multiaddr.StringCast("/ip4/8.8.8.8/tcp/3103"), multiaddr.StringCast("/dns4/announce.example.com/tcp/443/https")}
+	unkAddr   = append(varint.ToUvarint(7777777), 1, 2, 3) // an unregistered protocol code
+	relayAddr = multiaddr.StringCast("/ip4/8.8.4.4/tcp/4001/p2p/" + ids.Peer("c10-relay").String() + "/p2p-circuit")
+	origPeer  = ids.Peer("c10-orig").String()
 )
 
 func theCid(i int) cid.Cid {
@@ -61,6 +61,8 @@ func addrBytes(class string, i int) []byte {
 	switch class {
 	case "ok":
 		return okAddrs[i%2].Bytes()
+	case "relay":
+		return relayAddr.Bytes()
 	case "unk":
 		return unkAddr
 	}
@@ -97,6 +99,8 @@ func project(msg *message.Message) amsg {
 			out.Addrs = append(out.Addrs, "empty")
 		case bytes.Equal(a, unkAddr):
 			out.Addrs = append(out.Addrs, "unk")
+		case bytes.Equal(a, relayAddr.Bytes()):
+			out.Addrs = append(out.Addrs, "relay")
 		case bytes.Equal(a, okAddrs[k%2].Bytes()):
 			out.Addrs = append(out.Addrs, "ok")
 		default:
@@ -170,7 +174,7 @@ func writeTok(w *bytes.Buffer, t tok, i int) {
 			return
 		}
 		var b []byte
-		if t.c == "ok" || t.c == "unk" || t.c == "empty" {
+		if t.c == "ok" || t.c == "unk" || t.c == "empty" || t.c == "relay" {
 			b = addrBytes(t.c, t.k)
 		} else {
 			b = extraBytes(t.c)
@@ -378,7 +382,7 @@ func Run(args []string) *rep.Report {
 				addrs, err := got.GetAddrs()
 				want := 0
 				for _, a := range tc.HTTP.Addrs {
-					if a == "ok" {
+					if a == "ok" || a == "relay" {
 						want++
 					}
 				}
@@ -392,11 +396,15 @@ func Run(args []string) *rep.Report {
 				okAll := err == nil && len(addrs) == want && got.Cid == theCid(idx) && (got.OrigPeer != "") == tc.M.Orig
 				k := 0
 				for i, a := range tc.M.Addrs {
-					if a != "ok" || !okAll {
+					if (a != "ok" && a != "relay") || !okAll {
 						continue
 					}
-					base, pid := peer.SplitAddr(addrs[k])
-					if pid != senderID || base == nil || !base.Equal(okAddrs[i%2]) {
+					// every address on the wire ends with the publisher's ID, appended to the address that was given
+					wantBase := okAddrs[i%2]
+					if a == "relay" {
+						wantBase = relayAddr
+					}
+					if addrs[k].String() != wantBase.String()+"/p2p/"+senderID.String() {
 						okAll = false
 					}
 					k++
